@@ -25,4 +25,5 @@ NEXT MCNext
 CONSTRAINT StepBound
 VIEW View
 INVARIANTS ReadPathOK LimitOK OracleExact
+PROPERTY ErasedStaysErasedMC
 CHECK_DEADLOCK FALSE
